@@ -184,6 +184,21 @@ impl Part for Licences {
 
 /// Judge one 6-byte value: it decodes to a configuration iff it is that configuration's wire form.
 fn judge_bytes(b: &[u8; 6]) -> Result<bool, Fail> {
+    // six bytes have no byte order: the reader's endianness argument (a caller of the public BinRead impl picks one) must not
+    // change what they decode to, nor what the value is written as
+    let le = guard(|| Track::read_le(&mut Cursor::new(&b[..])).map_err(|_| ()));
+    let be = guard(|| Track::read_be(&mut Cursor::new(&b[..])).map_err(|_| ()));
+    if let (Ok(le), Ok(be)) = (&le, &be) {
+        if le != be {
+            return Err(Fail::new("c14:depends-on-the-endianness-argument", format!("{b:02x?} ({:?}): read_le gives {le:?}, read_be gives {be:?}", String::from_utf8_lossy(b))));
+        }
+        if let Ok(t) = le {
+            let mut out = Cursor::new(Vec::new());
+            if t.write_be(&mut out).is_ok() && out.get_ref()[..] != b[..] {
+                return Err(Fail::new("c14:depends-on-the-endianness-argument", format!("{t:?} is written as {:02x?} with write_be, its wire form is {b:02x?}", out.get_ref())));
+            }
+        }
+    }
     let want = wires().get(b).copied();
     let got = match guard(|| read_track(b)) {
         Ok(r) => r,
